@@ -74,6 +74,12 @@ func checkC13(w *World, c *Check, tier string) {
 	sort.Strings(containers)
 	c.stat("containers", len(containers))
 	toIC := w.Func("ToItemCollection")
+	// removal through the item-list view must only delete, never move (members keep first-insertion order)
+	if rm := w.Method("ItemCollection", "Remove"); rm != nil {
+		checkSplice(w, c, pr, "C13.splice", rm)
+	} else {
+		c.bad("C13.splice", "anchor:ItemCollection.Remove", "-", "not found")
+	}
 	for _, name := range containers {
 		app := w.Method(name, "Append")
 		contains := w.Method(name, "Contains")
@@ -447,6 +453,32 @@ func checkC14(w *World, c *Check, tier string) {
 	} else {
 		c.bad("C14.fold", "fastpath-strips-fragment", w.FuncPos(eq), "the string fast path no longer cuts the fragment before comparing")
 	}
+	// the scheme ends at the FIRST "://" and the fragment starts at the FIRST '#': the cut positions of the string
+	// fast path must come from strings.Index / IndexByte / Cut, never from a last-occurrence search
+	for _, f := range clos {
+		for _, call := range callsIn(f) {
+			cal := call.Common().StaticCallee()
+			if cal == nil || cal.Object() == nil || cal.Object().Pkg() == nil || cal.Object().Pkg().Path() != "strings" {
+				continue
+			}
+			sep := ""
+			for _, a := range call.Common().Args {
+				if s, ok := constString(a); ok && (s == "://" || s == "#" || s == ":") {
+					sep = s
+				}
+			}
+			if sep == "" {
+				continue
+			}
+			key := fmt.Sprintf("%s:%s(%q)", funcName(f), cal.Name(), sep)
+			switch cal.Name() {
+			case "Index", "IndexByte", "IndexRune", "Cut", "SplitN", "Contains":
+				c.ok("C14.cut", key, w.InstrPos(call), "first occurrence")
+			case "LastIndex", "LastIndexByte", "LastIndexAny", "IndexAny", "Split", "Fields":
+				c.bad("C14.cut", key, w.InstrPos(call), fmt.Sprintf("%s locates %q with strings.%s: the scheme/fragment delimiter is the first occurrence; IRIs that embed another URL (a query parameter, an archive path) are cut in the wrong place and compare equal although host or path differ", funcName(f), sep, cal.Name()))
+			}
+		}
+	}
 	// IRIs.Contains -> IRI.Equals
 	if ic := w.Method("IRIs", "Contains"); ic != nil {
 		found := false
@@ -507,7 +539,11 @@ func usesCaseSensitively(v ssa.Value, d int) string {
 				}
 			case strings.HasPrefix(full, "strings.") && (cal.Name() == "Compare" || cal.Name() == "Contains" || cal.Name() == "HasPrefix" || cal.Name() == "HasSuffix"):
 				return "is compared with strings." + cal.Name() + " (case-sensitive)"
+			case strings.HasPrefix(full, "strings.Trim") || strings.HasPrefix(full, "strings.Replace") || full == "strings.TrimPrefix" || full == "strings.TrimSuffix":
+				return "is rewritten with " + full + " before being compared: characters are removed from the component (e.g. the leading '/' that keeps dot segments from climbing above the root), so equivalent forms stop comparing equal"
 			}
+		case *ssa.Slice:
+			return "is sliced before being compared (part of the component is dropped)"
 		case *ssa.Phi, *ssa.Convert, *ssa.ChangeType:
 			if msg := usesCaseSensitively(x.(ssa.Value), d+1); msg != "" {
 				return msg
